@@ -44,10 +44,21 @@ PvIterOK(D, e, it, M) ==
      /\ lo - sl <= it.pmin
      /\ it.pmax <= hi + sl
 
+\* The recorded findings C12- / C13-wildcard-column-not-a-symbol have one exact shape: TFM-PVALUE enumerates words over
+\* the K-1 regular symbols only, so when the wildcard has finite scores AND a background frequency its answers are those
+\* of the distribution WITHOUT the words holding a wildcard.  An event that fails against the exact tail but is consistent
+\* with that distribution is the finding; one that fails against both is something else.
+\* (Dist!ConvDist ranges over the first K-1 columns; events whose wildcard is scored carry it as column K-1 followed by an
+\* always -inf column K, so the distribution without the wildcard is simply the one over the first K-2 columns)
+DistOf(e, K2) == IF "sat" \in DOMAIN e THEN ConvDistSat(Double(e.pssm), e.bn, K2, e.sat) ELSE ConvDist(Double(e.pssm), e.bn, K2)
+IsWildFinding(e) == "wild" \in DOMAIN e /\ e.wild = "finite_scores_and_frequency"
+
 ApplyPv(s, e) ==
   LET M == Len(e.pssm)
       D == IF "sat" \in DOMAIN e THEN ConvDistSat(Double(e.pssm), e.bn, e.K, e.sat) ELSE ConvDist(Double(e.pssm), e.bn, e.K)
       bad == {q \in 1..Len(e.iters) : ~PvIterOK(D, e, e.iters[q], M)}
+      D2 == DistOf(e, e.K - 1)
+      asregular == bad # {} /\ IsWildFinding(e) /\ \A q \in 1..Len(e.iters) : PvIterOK(D2, e, e.iters[q], M)
       progress == Len(e.iters) >= 1 /\ \A q \in 1..Len(e.iters) : e.iters[q].k = q
       \* fidelity of the I-layer model (advisory): some admissible row permutation makes Tfm!LookupPv reproduce the
       \* logged range of every coarse iteration exactly (only for exact numerators and the first granularity 1/10; 1/100 is covered by MC_Tfm)
@@ -57,7 +68,9 @@ ApplyPv(s, e) ==
                     LookupPv(e.pssm, pm, e.bn, e.bd, e.K, e.iters[q].ginv, e.G, e.s8, FALSE) = <<e.iters[q].pmin, e.iters[q].pmax>>
   IN [ok |-> progress /\ bad = {}, st |-> s,
       note |-> IF progress /\ bad = {} /\ ~fid THEN "TFM-PVALUE look-up differs from the I-layer model Tfm!LookupPv" ELSE "",
-      exp |-> [why |-> IF ~progress THEN "no_iteration" ELSE "pvalue_range_outside_exact_tail_bounds",
+      exp |-> [why |-> IF ~progress THEN "no_iteration"
+                       ELSE IF asregular THEN "pvalue_range_is_that_of_the_words_without_wildcard"
+                       ELSE "pvalue_range_outside_exact_tail_bounds",
                detail |-> IF bad = {} THEN <<>> ELSE
                   LET q == CHOOSE q \in bad : TRUE  it == e.iters[q] IN
                   IF "eps" \in DOMAIN e THEN <<it.k, it.pmin, it.pmax, EpsHi(e, it, M), EpsLo(e, it, M)>>
@@ -87,8 +100,11 @@ ApplySc(s, e) ==
       D == IF IsSat(e) THEN ConvDistSat(Double(e.pssm), e.bn, e.K, e.sat) ELSE ConvDist(Double(e.pssm), e.bn, e.K)
       bad == {q \in 1..Len(e.iters) : ~ScIterOK(D, e, e.iters[q], M)}
       progress == Len(e.iters) >= 1 /\ \A q \in 1..Len(e.iters) : e.iters[q].k = q /\ e.iters[q].offgrid = 0
+      D2 == DistOf(e, e.K - 1)
+      asregular == bad # {} /\ IsWildFinding(e) /\ \A q \in 1..Len(e.iters) : ScIterOK(D2, e, e.iters[q], M)
   IN [ok |-> progress /\ bad = {}, st |-> s,
       exp |-> [why |-> IF ~progress THEN "no_iteration_or_threshold_not_a_multiple_of_the_granularity"
+                       ELSE IF asregular THEN "threshold_is_that_of_the_words_without_wildcard"
                        ELSE "threshold_inconsistent_with_exact_tail",
                detail |-> IF bad = {} THEN <<>> ELSE LET q == CHOOSE q \in bad : TRUE IN <<e.iters[q].k, e.iters[q].tk, e.iters[q].ginv>>]]
 
